@@ -17,6 +17,10 @@ COMMON_ABS = [
     "platform fixed to linux/posix, sys.version_info fixed to 3.12 (A-posix)",
 ]
 
+NOT_APPLICABLE = {
+    "C01": "liveness over all thread/process interleavings and crash points: function contracts have no notion of schedule, fairness or progress (DESIGN.md section 7, C01); its sequential necessary conditions are obligations of C02-C05",
+}
+
 PROPS = {}
 
 PROPS["C17"] = dict(
@@ -32,6 +36,7 @@ PROPS["C17"] = dict(
 )
 
 PROPS["C19"] = dict(
+    claimed=False,
     proved="",
     not_covered="",
     assumptions=["A-posix"],
